@@ -134,7 +134,7 @@ inductive PC where
   | nf (list : Bool) (k : Nat)          -- lock a FutWait list (false = consumers', true = producers')
   -- recv
   | r0 | la1 | la2
-  | is1 (p : Nat)
+  | is1                               -- `is_single()` of `try_recv`: loaded before the position (F16)
   | r1 (p : Nat) (sg : Bool)
   | r2 (p : Nat) (sg : Bool)
   | r3 (p : Nat) (sg : Bool)
@@ -394,7 +394,7 @@ def waitDone (σ : St) (t : Nat) : St :=
   let x := σ.th t
   match x.outer with
   | .recvView | .futRecvView | .poll true => σ.goto t .la1
-  | _ => σ.goto t .la1
+  | _ => σ.goto t .is1
 
 /-- `check` evaluated to `b` in phase `ph` -/
 def checkDone (σ : St) (t : Nat) (j seq : Nat) (ph : WPh) (b : Bool) : St :=
@@ -455,7 +455,10 @@ def mgrDone (σ : St) (t : Nat) (k : MK) : St :=
   | .sendStart =>
       if σ.noReader then sendDone σ t .disc
       else if (σ.hs x.g).uni then σ.goto t (.sh false) else σ.goto t .m1
-  | .recvStart => σ.goto t .la1
+  | .recvStart =>
+      match x.outer with
+      | .tryRecvView | .recvView | .futTryRecvView | .futRecvView | .poll true => σ.goto t .la1
+      | _ => σ.goto t .is1
   | .rmTok kk => σ.goto t (.rt1 kk)
   | .cloneS => σ.goto t .cs1
   | .retNew =>
@@ -615,7 +618,11 @@ def stepRun (σ0 : St) (t : Nat) (inp : Nat) : Obs × St :=
   | .r0 =>
       let flags := (if σ0.noReader then 2 else 0) + (if σ0.sigE then 1 else 0)
       let o := mkObs σ0 t .load .signal .rlx (res := flags)
-      if σ0.sigE then (o, σ.goto t (.u1 .recvStart)) else (o, σ.goto t .la1)
+      if σ0.sigE then (o, σ.goto t (.u1 .recvStart))
+      else
+        match x.outer with
+        | .tryRecvView | .recvView | .futTryRecvView | .futRecvView | .poll true => (o, σ.goto t .la1)
+        | _ => (o, σ.goto t .is1)
   | .la1 =>
       if h_.uni then stepLa2 σ0 σ t x s
       else
@@ -623,9 +630,10 @@ def stepRun (σ0 : St) (t : Nat) (inp : Nat) : Obs × St :=
         if σ0.ncons s = 1 then (o, (σ.setHd g fun y => { y with uni := true }).gotoF t .la2 [.acq])
         else (o, σ.goto t .la2)
   | .la2 => stepLa2 σ0 σ t x s
-  | .is1 p =>
+  | .is1 =>
+      -- `try_recv` evaluates `is_single()` once per attempt, before `load_attempt`
       let o := mkObs σ0 t .load (.ncons s) .rlx (res := σ0.ncons s)
-      (o, σ.goto t (.r1 p (σ0.ncons s == 1)))
+      (o, (σ.setTh t fun y => { y with aux := if σ0.ncons s = 1 then 1 else 0 }).goto t .la1)
   | .r1 p sg =>
       let tg := σ0.tag (p % N)
       let o := mkObs σ0 t .load (.tag (p % N)) .acq (res := encTag tg)
@@ -712,7 +720,7 @@ def stepRun (σ0 : St) (t : Nat) (inp : Nat) : Obs × St :=
       -- the count is re-loaded here; `recv` and the shared `poll` retry when it lives in another slot
       let o := mkObs σ0 t .load (.pos s) .rlx (res := σ0.pos s)
       let guarded := x.outer = Outer.recv || x.outer = Outer.poll false
-      if guarded && σ0.pos s % N != j then (o, σ.goto t .la1) else (o, startWait σ t j (σ0.pos s))
+      if guarded && σ0.pos s % N != j then (o, σ.goto t .is1) else (o, startWait σ t j (σ0.pos s))
   | .c1 j seq ph =>
       (mkObs σ0 t .load (.tag j) .rlx (res := encTag (σ0.tag j)), σ.goto t (.c2 j seq ph (σ0.tag j)))
   | .c2 j seq ph tg =>
@@ -882,7 +890,7 @@ where
     let σ := σ.setTh t fun y => { y with single := (σ0.hs x.g).uni }
     match x.outer with
     | .tryRecvView | .recvView | .futTryRecvView | .futRecvView | .poll true => (o, σ.goto t (.v1 p))
-    | _ => (o, σ.goto t (.is1 p))
+    | _ => (o, σ.goto t (.r1 p (x.aux == 1)))
   startNotify2 (σ : St) (t : Nat) : St :=
     -- start_send: the second `waiter.notify()` after the one inside try_send
     σ.goto t (.nf false 2)
